@@ -250,6 +250,8 @@ def classify_ir(prog, f, i):
             return ("10-counter", "remaining-children countdown of a frame (a frame is only pushed with a positive count or 0 for indefinite)")
         if st == "%struct._cbor_stack" and idx == (0, 1) and b.v == SIZE_MAX and f.name == "_cbor_stack_pop":
             return ("10-counter", "stack depth - 1 in pop (every caller pops a frame it just inspected)")
+        if st == "%struct._cbor_stack" and idx == (0, 1) and b.v == 1 and f.unit.endswith("internal/stack.c"):
+            return ("10-counter", "stack depth + 1 inside the stack module: depth <= CBOR_MAX_STACK_SIZE by the gate (C19.gate) and the single-writer rule")
         if st == "%struct._cbor_map_metadata" and idx == (0, 1) and f.name == "_cbor_map_add_value":
             return ("10-counter", "pair index count - 1 right after a successful key insertion (C12.value-slot)")
     # 8: window arithmetic in the serializers (shape verified by C07.window)
